@@ -216,7 +216,8 @@ theorem acceptLoop_ok (to : Addr) (froms : List Addr) :
         have hc2 : r2.coins = r.coins := by rw [← hr2]; exact hc1
         have hu2 : r2.unacc = r.unacc.filter (fun a => !froms.contains a) := by rw [← hr2]; exact hu1
         have hfa2 : r2.isFullyAccepted = false := by rw [← hr2]; exact hfa
-        have inv1 := inv_setQR inv to r2
+        have hnn : ∀ d, 0 ≤ Coins.amountOf r.coins d := inv.nonneg _ (mem_of_kvGet hstored)
+        have inv1 := inv_setQR inv to r2 (by rw [hc2]; exact hnn)
         have snap1 : Snapshot (setQuarantineRecord s to r2) to rest := snap.after_set hk2 rfl
         have A := ih _ s' rel rel' inv1 snap1 h
         have hrel : releases froms r = false := by
@@ -258,7 +259,8 @@ theorem acceptLoop_ok (to : Addr) (froms : List Addr) :
           subst hs1
           have inv1 : StoreInv { s with bank := Ledger.move s.bank s.holder to r1.coins, qout := Coins.add s.qout r1.coins } :=
             inv_with_bank_qout inv _ _
-          have inv2 := inv_setQR inv1 to r1
+          have hnn : ∀ d, 0 ≤ Coins.amountOf r.coins d := inv.nonneg _ (mem_of_kvGet hstored)
+          have inv2 := inv_setQR inv1 to r1 (by rw [hc1]; exact hnn)
           have snap2 : Snapshot (setQuarantineRecord { s with bank := Ledger.move s.bank s.holder to r1.coins, qout := Coins.add s.qout r1.coins } to r1) to rest :=
             snap.after_set hk1 rfl
           have A := ih _ s' _ rel' inv2 snap2 h
@@ -331,7 +333,8 @@ theorem declineLoop_ok (to : Addr) (froms : List Addr) :
       obtain ⟨hk1, hc1, hfa1⟩ := declineFrom_some hdf
       have hnfa : r.isFullyAccepted = false := inv.nfa _ (mem_of_kvGet hstored)
       have hfa := hfa1 hnfa
-      have inv1 := inv_setQR inv to r1
+      have hnn : ∀ d, 0 ≤ Coins.amountOf r.coins d := inv.nonneg _ (mem_of_kvGet hstored)
+      have inv1 := inv_setQR inv to r1 (by rw [hc1]; exact hnn)
       have snap1 : Snapshot (setQuarantineRecord s to r1) to rest := snap.after_set hk1 rfl
       have A := ih _ inv1 snap1
       have hself : kvGet (setQuarantineRecord s to r1).recs (to, keyOf r) = some r1 := by
@@ -374,11 +377,12 @@ theorem OnlySettings.trans {a b c : State} (h1 : OnlySettings a b) (h2 : OnlySet
    h2.index.trans h1.index, h2.bank.trans h1.bank, h2.qin.trans h1.qin, h2.qout.trans h1.qout⟩
 
 theorem OnlySettings.inv {s s' : State} (h : OnlySettings s s') (inv : StoreInv s) : StoreInv s' := by
-  refine ⟨?_, ?_, ?_, ?_⟩
+  refine ⟨?_, ?_, ?_, ?_, ?_⟩
   · unfold KeyOK; rw [h.recs]; exact inv.key
   · unfold KeysNodup; rw [h.recs]; exact inv.nodup
   · unfold NoneFullyAccepted; rw [h.recs]; exact inv.nfa
   · unfold IndexOK; rw [h.recs, h.index]; exact inv.idx
+  · unfold RecsNonneg; rw [h.recs]; exact inv.nonneg
 
 theorem OnlySettings.outstanding {s s' : State} (h : OnlySettings s s') (d : Denom) :
     outstanding s' d = outstanding s d := by
